@@ -1140,3 +1140,51 @@ pub fn maybe_install_trace_subscriber() {
         let _ = tracing::subscriber::set_global_default(EverythingEnabled);
     }
 }
+
+
+/// A `Write + Seek` sink that accepts at most `pattern[i % len]` bytes per `write` call (a pipe, a socket wrapper, a
+/// chunking writer): whoever ignores the count `write` returns loses bytes here. `fail_after`: total bytes after which
+/// every write fails (a full disk, a too-small buffer).
+pub struct TrickleSink<'a> {
+    pub inner: std::io::Cursor<Vec<u8>>,
+    pub pattern: &'a [usize],
+    pub calls: usize,
+    pub fail_after: Option<usize>,
+}
+
+impl<'a> TrickleSink<'a> {
+    pub fn new(pattern: &'a [usize]) -> Self {
+        TrickleSink { inner: std::io::Cursor::new(Vec::new()), pattern, calls: 0, fail_after: None }
+    }
+    pub fn failing_after(n: usize) -> Self {
+        TrickleSink { inner: std::io::Cursor::new(Vec::new()), pattern: &[usize::MAX], calls: 0, fail_after: Some(n) }
+    }
+    pub fn bytes(&self) -> &[u8] {
+        self.inner.get_ref()
+    }
+}
+
+impl std::io::Write for TrickleSink<'_> {
+    fn write(&mut self, buf: &[u8]) -> std::io::Result<usize> {
+        let k = self.pattern[self.calls % self.pattern.len()].max(1);
+        self.calls += 1;
+        let mut n = buf.len().min(k);
+        if let Some(limit) = self.fail_after {
+            let room = limit.saturating_sub(self.inner.position() as usize);
+            if room == 0 && !buf.is_empty() {
+                return Err(std::io::Error::new(std::io::ErrorKind::WriteZero, "sink is full"));
+            }
+            n = n.min(room);
+        }
+        self.inner.write(&buf[..n])
+    }
+    fn flush(&mut self) -> std::io::Result<()> {
+        Ok(())
+    }
+}
+
+impl std::io::Seek for TrickleSink<'_> {
+    fn seek(&mut self, pos: std::io::SeekFrom) -> std::io::Result<u64> {
+        self.inner.seek(pos)
+    }
+}
